@@ -54,6 +54,8 @@ func shapeOf(taint string) string {
 		return "argument-already-has-a-parent"
 	case taint == "two-interfaces-of-a-node-receive":
 		return "second-interface-of-the-node"
+	case taint == "enum-grows-under-two-signals-of-one-layout":
+		return "two-signals-of-the-enum-in-one-layout"
 	}
 	return "interface-removed-from-its-node"
 }
